@@ -483,4 +483,27 @@ theorem connect_returned (p : Params) (src : Nat → Nat) (w : World) (c : Conn)
   repeat' split at h
   all_goals simp_all [failed]
 
+/-- every outcome of the full-handshake branch carries the next draw of the identifier source in its
+ServerHello (doFullHandshake has ONE, unconditional, write of `hs.hello.sessionId`: fact
+`resSessionIdWrites`) -/
+theorem fullBranch_returned (p : Params) (src : Nat → Nat) (w : World) (c : Conn) (l : Option ObjId) (su : Nat)
+    (rnd : Nat × Nat) (full : Option Nat) :
+    (fullBranch p src w c l su rnd full).2.returned = some (src w.nId) := by
+  unfold fullBranch
+  simp only []
+  repeat' split
+  all_goals simp [failed, withPeer]
+
+/-- when the server does not accept the offered session, a ServerHello — if one is sent at all — names
+the next draw of the identifier source -/
+theorem connect_refused_returned (p : Params) (src : Nat → Nat) (w : World) (c : Conn) (y : Nat)
+    (href : (afterCheck p w c).2 = none) (h : (connect p src w c).2.returned = some y) : y = src w.nId := by
+  have hfr := afterCheck_frame p w c
+  unfold connect at h
+  simp only [href] at h
+  split at h
+  · simp [failed] at h
+  · rw [fullBranch_returned, hfr.2.2.2.1] at h
+    exact (Option.some.inj h).symm
+
 end Gotlcp.Lemmas.ResumptionFail
